@@ -14,7 +14,7 @@ from vf.vworld import base, peer
 
 METHODS = ['GET', 'POST', 'OPTIONS', 'PUT', 'DELETE', 'HEAD']
 EIOS = [None, '4', '3', '5', '', '44']
-TRANSPORTS = [None, 'polling', 'websocket', 'bogus']
+TRANSPORTS = [None, 'polling', 'websocket', 'bogus', 'poll', 'socket']     # the last two: proper substrings of the real names
 SIDKINDS = ['absent', 'live_polling', 'live_upgraded', 'mid_upgrade', 'closed', 'unknown', 'rejected', 'closing', 'suffixed', 'prefix']
 HDRS = ['none', 'both', 'upgrade_only', 'connection_only', 'other_protocol', 'both_mixed']   # both_mixed: the same two headers, other letter case
 JS = [None, '0', '5', 'x', '']
@@ -34,11 +34,19 @@ class RejectOnHeader(base.Behaviour):
         return []
 
 
+STR_CFGS = ['polling_str', 'websocket_str']      # the transports option given as a bare string instead of a list
+
+
 def prepare(impl, cfg):
     kw = {}
+    if cfg.endswith('_str'):
+        kw['transports'] = cfg[:-4]
+        cfg = cfg[:-4]
     if cfg == 'no_upgrades':
         kw['allow_upgrades'] = False
-    if cfg == 'polling':
+    if 'transports' in kw:
+        pass
+    elif cfg == 'polling':
         kw['transports'] = ['polling']
     elif cfg == 'websocket':
         kw['transports'] = ['websocket']
@@ -99,6 +107,7 @@ def snapshot(w):
 
 def reference(method, eio, transport, sidkind, hdr, j, cfg):
     """-> (verdict, allowed_statuses) verdict in admit/refuse/open/any."""
+    cfg = cfg[:-4] if cfg.endswith('_str') else cfg
     allowed = {'both': ['polling', 'websocket'], 'no_upgrades': ['polling', 'websocket'], 'polling': ['polling'], 'websocket': ['websocket']}[cfg]
     defects = set()
     if method not in ('GET', 'POST', 'OPTIONS'):
@@ -285,13 +294,16 @@ def run(ctx):
         hdrs, js = ['none', 'both', 'upgrade_only', 'other_protocol', 'both_mixed'], [None, 'x', '5']
     else:
         hdrs, js = HDRS, JS
-    prod = list(itertools.product(METHODS, EIOS, TRANSPORTS, SIDKINDS, hdrs, js))
+    # the substring transports multiply only a reduced product (they differ from 'bogus' only where names are compared loosely)
+    prod = list(itertools.product(METHODS, EIOS, TRANSPORTS[:4], SIDKINDS, hdrs, js))
+    prod += list(itertools.product(['GET', 'POST'], ['4'], TRANSPORTS[4:], SIDKINDS, ['none', 'both'], [None]))
+    prod_str = list(itertools.product(['GET', 'POST', 'OPTIONS'], ['4', '3'], TRANSPORTS, SIDKINDS, ['none', 'both', 'upgrade_only'], [None, 'x']))
     # refused requests first so that worlds are reused as long as possible
     jobs = []
     for impl in ('sync', 'async'):
-        for cfg in CFGS:
-            cs = sorted(prod, key=lambda c: reference(*c, cfg)[0] != 'refuse')
-            for part in parallel.split(cs, 12):
+        for cfg in CFGS + STR_CFGS:
+            cs = sorted(prod_str if cfg in STR_CFGS else prod, key=lambda c: reference(*c, cfg)[0] != 'refuse')
+            for part in parallel.split(cs, 3 if cfg in STR_CFGS else 12):
                 part = sorted(part, key=lambda c: reference(*c, cfg)[0] != 'refuse')
                 jobs.append((impl, cfg, part))
     res = parallel.pmap_chunks(_work, [[j] for j in jobs], ctx.workers, ctx.seed, maxtasks=4)
@@ -309,7 +321,7 @@ def run(ctx):
         'rule': 'product method(6) x EIO(6) x transport(4) x sid kind(7) x Upgrade/Connection(%d) x j(%d) x configured '
                 'transports(3) x {Server, AsyncServer}; each request against a prepared world holding a bystander '
                 'with queued packets and one session of every kind the configuration allows (kinds that cannot '
-                'exist under a configuration are skipped). Every request is a distinct cell.' % (len(hdrs), len(js)),
+                'exist under a configuration are skipped); plus transport names that are proper substrings of the real ones (reduced product), and the transports option given as a bare string (polling / websocket; reduced product). Every request is a distinct cell.' % (len(hdrs), len(js)),
         'samples': [{'method': 'POST', 'sid': 'closed', 'EIO': '4', 'transport': 'polling'},
                     {'method': 'GET', 'sid': 'live_polling', 'transport': 'websocket', 'hdr': 'none'},
                     {'method': 'PUT', 'EIO': '3', 'transport': 'bogus'}],
